@@ -61,9 +61,9 @@ void Tasks::prepare_stacks() {
     g_stacks_ready = true;
 }
 
-void Tasks::refill_stacks() {
+void Tasks::refill_stacks(uint8_t fill) {
     prepare_stacks();
-    for (int i = 0; i < kMaxTasks; i++) memset(stack_addr(i), 0xA5, kStackSize);
+    for (int i = 0; i < kMaxTasks; i++) memset(stack_addr(i), fill, kStackSize);
 }
 
 void Tasks::trampoline() {
